@@ -74,6 +74,12 @@ def check(ctx):
     for t in ["`define APPLY(f) f(f)\n`APPLY(`APPLY)\n", "`define CALL(f, x) f(f, x)\n`CALL(`CALL, 1)\n",
               "`define P(f, g) g(g, f)\n`define Q(f, g) f(g, f)\n`P(`P, `Q)\n", "`define SELF(x) x\n`define R `SELF(`R)\n`R\n"]:
         pcs.append(ppx.PC({"top.sv": t}, tag="self-application")); exp.append(("err", 0))
+    # legal expansions in which a macro's own name stands behind a backquote in its definition without being an
+    # unconditional call of itself: bounded by a condition, pasted into a longer name, pasted as a suffix, nested in arguments
+    for t in ["`define GO\n`define STEP `ifdef GO `undef GO `STEP `else LEAF `endif\n`STEP\n",
+              "`define SEL_IMPL LEAF\n`define SEL `SEL``_IMPL\n`SEL\n", "`define REG(p) p``REG\n`REG(LEAF_)\n",
+              "`define A(x) x\n`define B `A(`A(`A(LEAF)))\n`B\n", "`define NAME NAME_is_LEAF\n`NAME\n"]:
+        pcs.append(ppx.PC({"top.sv": t}, tag="own-name-no-cycle")); exp.append(("ok",))
     # the same families with the other flags on
     extra = []
     for pc, e in list(zip(pcs, exp))[:: (7 if q else 3)]:
